@@ -1042,10 +1042,18 @@ func (env *Env) specCall(sf *SpecFunc, argx []ast.Expr) Term {
 		as = append(as, a.S)
 		sorts = append(sorts, string(a.Sort))
 	}
-	vars, _ := env.e.p.expandAssigns(u, sf.Reads)
-	for _, v := range vars {
-		as = append(as, env.heap.get(v))
-		sorts = append(sorts, u.heapSorts[v])
+	anchor := ""
+	if len(args) > 0 && args[0].Sort == SInt {
+		anchor = args[0].S
+	}
+	ra, rs := env.e.p.readArgs(u, sf.Reads, env.heap, anchor)
+	as = append(as, ra...)
+	sorts = append(sorts, rs...)
+	var vars []string
+	for _, r := range sf.Reads {
+		r = strings.TrimPrefix(strings.TrimPrefix(strings.TrimSpace(r), "local "), "localrows ")
+		vs, _ := env.e.p.expandAssigns(u, []string{r})
+		vars = append(vars, vs...)
 	}
 	fn := "gh_" + sanitize(sf.Name)
 	u.declareUF(fn, fmt.Sprintf("(declare-fun %s (%s) %s)", fn, strings.Join(sorts, " "), sf.Result))
